@@ -16,6 +16,7 @@
 #define MAXOUT (5u << 20)
 #define NCH 6
 #define CHMAX (1u << 17)
+#define ICHMAX (640u << 10)     /* input chunks may be large (a small first chunk followed by several hundred KB) */
 static gslot *s_ctx, *s_lvl, *s_in, *s_out, *s_huff, *s_dict, *s_dictst, *s_ic[NCH], *s_oc[NCH];
 static uint8_t *inbuf;            /* private copy of the input of the case (never handed to the library) */
 static uint8_t *cout; static size_t coutlen;   /* collected compressed output */
@@ -36,7 +37,7 @@ typedef struct { uint32_t ain, aout, cons, prod; uint16_t flush, eos; uint8_t sb
 #define MAXEV 6000
 static cevent ev[MAXEV]; static int nev;
 typedef struct { size_t outpos, inpos; int full; } fpoint;
-static long st_forced_empty; static fpoint fps[64]; static int nfps; static long n_flushpts, n_fullpts, n_fullpts_with_match_data;
+static long st_forced_empty, st_late_hb, st_bigchunk; static fpoint fps[64]; static int nfps; static long n_flushpts, n_fullpts, n_fullpts_with_match_data;
 static long st_calls, st_streams, st_stored_fallback, st_multiblock, st_big, st_tmp_resume[32], st_pairs[24][24];
 
 /* ------------------------------------------------------------------ inputs */
@@ -83,9 +84,11 @@ static const int OCH[] = { 1, 2, 3, 7, 8, 9, 15, 16, 17, 64, 223, 224, 225, 327,
 #define NICH ((int) (sizeof ICH / sizeof ICH[0]))
 #define NOCH ((int) (sizeof OCH / sizeof OCH[0]))
 /* size of the next chunk for a "kind": <N: constant ICH[kind]; N: random small; N+1: random any; N+2: 1..7; N+3: alternating 1/300; N+4: geometric */
+static int adler_c1, big_c1;
 static size_t chunk_size(vrng *r, const int *tab, int ntab, int kind, long callno)
 {
-	if (kind == 99) return callno <= 1 ? (size_t) adler_c1 : 1u << 30;   /* Adler saturation schedule, see gen_case */
+	if (kind == 99) return callno <= 1 ? (size_t) adler_c1 : 1u << 30;
+	if (kind == 98) return callno <= 1 ? (size_t) big_c1 : 150000 + vrn(r, 300000);   /* small first chunk, then chunks of several hundred KB */   /* Adler saturation schedule, see gen_case */
 	if (kind < ntab) return tab[kind];
 	switch (kind - ntab) {
 	case 0: return vrn(r, 20);
@@ -222,6 +225,8 @@ static void run_streaming(long idx, const ccase *c, vrng *r, const char *lvl)
 	if (V_TRY(30)) {
 		isal_deflate_init(s);
 		if (setup_stream(s, c, r, ht, lvlbuf, lvlsz)) { V_END; goto out; }
+		int late_hist_bits = c->dictmode && c->hist_bits && vrn(r, 3) == 0;   /* the window size is a plain user field: it may be filled in after the dictionary calls, before the first isal_deflate() */
+		if (late_hist_bits) { s->hist_bits = 0; st_late_hb++; }
 		if (c->dictmode) {
 			dict = dictbuf; dictlen = c->dictlen; uint8_t *dd = gs_place(s_dict, dictlen, G_END, 0); memcpy(dd, dictbuf, dictlen);
 			int rc;
@@ -230,6 +235,7 @@ static void run_streaming(long idx, const ccase *c, vrng *r, const char *lvl)
 			if (rc != COMP_OK) { viol_ev("dict-refused", "dictionary call returned %d on a fresh stream", rc); V_END; goto out; }
 			if (dictlen > IGZIP_HIST_SIZE) { dict = dictbuf + dictlen - IGZIP_HIST_SIZE; dictlen = IGZIP_HIST_SIZE; }
 		}
+		if (late_hist_bits) s->hist_bits = (uint16_t) c->hist_bits;
 		V_END;
 	} else { fault_key("init/setup"); goto out; }
 	size_t fed = 0 /* bytes handed over and consumed */, given = 0 /* bytes handed over */; int eos_set = 0, eos_delay = c->eospol == 0 ? 0 : c->eospol == 1 ? 1 : 1 + (int) vrn(r, 4);
@@ -244,11 +250,11 @@ static void run_streaming(long idx, const ccase *c, vrng *r, const char *lvl)
 		if (force_empty) may_refill = 0;   /* a flush request that brings no input, right after a completed flush */
 		if (s->avail_in == 0 && given < n && may_refill) {
 			size_t want = chunk_size(r, ICH, NICH, c->ikind, calls); if (c->ikind == 0 && (calls & 1)) want = 1 + vrn(r, 700);   /* kind 0: zero-length calls interleaved */
-			if (want > n - given) want = n - given; if (want > CHMAX - 64) want = CHMAX - 64;
+			if (want > n - given) want = n - given; if (want > ICHMAX - 64) want = ICHMAX - 64;
 			if (c->chunked_mem) {
 				if (icur) { gs_reset(icur); gs_release(icur); }
 				icur = s_ic[irot++ % NCH]; if (icur->released) gs_reacquire(icur);
-				uint8_t *p = gs_place(icur, want, vrn(r, 3) ? G_END : G_START, 0); memcpy(p, inbuf + given, want); s->next_in = p;
+				uint8_t *p = gs_place(icur, want, c->ikind == 98 ? (vrn(r, 4) ? G_START : G_END) : vrn(r, 3) ? G_END : G_START, 0); memcpy(p, inbuf + given, want); s->next_in = p;
 			} else s->next_in = s_in->cur + given;
 			s->avail_in = (uint32_t) want; given += want;
 		}
@@ -506,7 +512,7 @@ static void gen_case(long idx, vrng *r, ccase *c, const char *prop)
 		size_t b = onebound(c->n, c->wrapper); long a = (long) b + vrr(r, -9, 4); if (a < 0) a = 0;
 		c->os_avail_out = (size_t) a + 1; c->os_flush = NO_FLUSH; c->os_eos = 1;
 	}
-	if (!strcmp(prop, "C17") && vrn(r, 2)) {   /* dictionary */
+	if ((!strcmp(prop, "C17") && vrn(r, 2)) || (!strcmp(prop, "C05") && !adler_sat && vrn(r, 5) == 0)) {   /* dictionary (C05: the dictionary bytes end at an inaccessible page) */
 		c->dictmode = 1 + vrn(r, 2); c->dictlen = vrn(r, 3) == 0 ? 1 + vrn(r, 300) : 1 + vrn(r, 70000); c->oneshot = 0; c->wrapper = vrn(r, 3) ? IGZIP_DEFLATE : (int) vrn(r, 5);
 		vr_fill(r, dictbuf, c->dictlen); if (vrn(r, 2)) markov(r, dictbuf, c->dictlen);
 		/* data quotes the dictionary tail and the part beyond the window */
@@ -517,6 +523,12 @@ static void gen_case(long idx, vrng *r, ccase *c, const char *prop)
 	if (adler_sat) {   /* zlib trailer under a saturated Adler-32: a first checksum update that leaves A just below 65521, then >= 5552 bytes of 0xFF in one update */
 		adler_c1 = 241 + (int) vrn(r, 16) + 257 * (int) vrn(r, 8); c->n = (size_t) adler_c1 + 5552 + vrn(r, 20000); memset(inbuf, 0xff, c->n); if (vrn(r, 3) == 0) for (size_t i = 0; i < c->n; i += 1 + vrn(r, 900)) inbuf[i] = (uint8_t) (0xfc + vrn(r, 4));
 		c->infam = 2; c->oneshot = 0; c->ikind = 99; c->fkind = 1; c->okind = NOCH - 1; c->wrapper = vrn(r, 2) ? IGZIP_ZLIB : IGZIP_ZLIB_NO_HDR; c->discipline = 0; c->eospol = 0; c->dictmode = 0; c->fresh_out = 0;
+	}
+	if ((!strcmp(prop, "C05") || !strcmp(prop, "C07") || !strcmp(prop, "C01")) && !adler_sat && !c->dictmode && vrn(r, 30) == 0) {
+		/* a small first chunk, then chunks of hundreds of KB which the codec processes in place: blocks that began in an earlier (released) chunk end here */
+		c->oneshot = 0; c->ikind = 98; big_c1 = vrn(r, 3) ? 1 + (int) vrn(r, 700) : 1 + (int) vrn(r, 6000); c->infam = vrn(r, 3) ? 3 : 7; c->level = vrn(r, 4) ? 3 : 1 + (int) vrn(r, 2); c->lvlkind = 2 + (int) vrn(r, 3);
+		c->n = 250000 + vrn(r, 500000); if (c->infam == 3) vr_fill(r, inbuf, c->n); else { markov(r, inbuf, c->n); for (int k = 0; k < 10; k++) { size_t at = vrn(r, (uint32_t) c->n), l = vrn(r, 60000); if (at + l > c->n) l = c->n - at; vr_fill(r, inbuf + at, l); } }
+		c->okind = vrn(r, 4) ? NOCH - 1 : NOCH + 1; c->fkind = vrn(r, 3) ? 0 : 3; c->chunked_mem = 1; c->discipline = 0; c->eospol = vrn(r, 2); c->hist_bits = 0; st_bigchunk++;
 	}
 	if (c->oneshot) { c->chunked_mem = 0; if (c->level == 1 && vrn(r, 8) == 0) c->lvlkind = 9; }
 	else if (!c->dictmode && c->ikind != 99) {
@@ -536,7 +548,7 @@ int main(int argc, char **argv)
 	if (V_NDISPATCHED > 0) cpusim_init();
 	s_ctx = gs_new("isal_zstream", sizeof(struct isal_zstream) + 8192); s_lvl = gs_new("level_buf", ISAL_DEF_LVL3_EXTRA_LARGE + 16384); s_in = gs_new("next_in", MAXIN + 8192); s_out = gs_new("next_out", MAXOUT + 8192);
 	s_huff = gs_new("hufftables", sizeof(struct isal_hufftables) + 4096); s_dict = gs_new("dict", 80000); s_dictst = gs_new("isal_dict", sizeof(struct isal_dict) + 4096);
-	for (int i = 0; i < NCH; i++) { s_ic[i] = gs_new("in_chunk", CHMAX); s_oc[i] = gs_new("out_chunk", CHMAX); }
+	for (int i = 0; i < NCH; i++) { s_ic[i] = gs_new("in_chunk", ICHMAX); s_oc[i] = gs_new("out_chunk", CHMAX); }
 	inbuf = malloc(MAXIN + 64); cout = malloc(MAXOUT + 64); dec = malloc(MAXIN + 4096); dec2 = malloc(MAXIN + 4096); dictbuf = malloc(80000);
 	const char *prop = vopt.prop;
 	monitors = M_ROUNDTRIP | M_CTX | M_PROGRESS;
@@ -570,7 +582,7 @@ int main(int argc, char **argv)
 		}
 	}
 	v_stat("evaluations", st_streams); v_stat("library_calls", st_calls); v_stat("stored_fallback_streams", st_stored_fallback); v_stat("multiblock_streams", st_multiblock); v_stat("inputs_over_64k", st_big);
-	v_stat("flush_points_checked", n_flushpts); v_stat("flush_calls_without_input_after_a_completed_flush", st_forced_empty); v_stat("full_flush_points", n_fullpts); v_stat("full_flush_suffixes_1k", n_fullpts_with_match_data);
+	v_stat("flush_points_checked", n_flushpts); v_stat("flush_calls_without_input_after_a_completed_flush", st_forced_empty); v_stat("streams_with_hist_bits_set_after_the_dictionary_calls", st_late_hb); v_stat("histories_with_a_small_chunk_then_chunks_of_hundreds_of_KB", st_bigchunk); v_stat("full_flush_points", n_fullpts); v_stat("full_flush_suffixes_1k", n_fullpts_with_match_data);
 	for (int a = 0; a < 24; a++) for (int b = 0; b < 24; b++) if (st_pairs[a][b]) { char e[32]; snprintf(e, sizeof e, "%d>%d", a, b); v_count("state_transitions", e, st_pairs[a][b]); }
 	for (int a = 0; a < 32; a++) if (st_tmp_resume[a]) { char e[32]; snprintf(e, sizeof e, "resume_in_state_%d", a); v_count("tmp_state_resume_points", e, st_tmp_resume[a]); }
 	return v_finish();
